@@ -1400,6 +1400,8 @@ val split_cmds : char list list -> char list list -> char list list list
 
 val final_obs : state -> char list
 
+val run_try : char list list -> state -> char list * state option
+
 val run_cmds : char list list list -> state -> char list
 
 val run_line : char list -> char list
